@@ -557,9 +557,9 @@ theorem il_kw_seg (pc : Nat) (u : List Str) (n : Str) (hu : u.contains n = false
         simp [e]
 
 /-- non-name positional argument being typed, section of positional parameters -/
-theorem il_pos_seg (pc : Nat) (k : Kind) (hk : k = .posOnly ∨ k = .posOrKw) (seg : List P) (i : Nat)
+theorem il_pos_seg (pc : Nat) (key : Str) (k : Kind) (hk : k = .posOnly ∨ k = .posOrKw) (seg : List P) (i : Nat)
     (hi : i ≤ pc) :
-    indexLoop false pc [] ⟨0, some [], false⟩ (seg.map (P.pname k)) i =
+    indexLoop false pc [] ⟨0, some key, false⟩ (seg.map (P.pname k)) i =
       if pc < i + seg.length then some pc else none := by
   induction seg generalizing i with
   | nil => simp [indexLoop]; omega
@@ -693,13 +693,13 @@ theorem calcIndex_pos (s : Sig) (npos : Nat)
   rw [← List.append_assoc, List.getLast?_concat, List.append_assoc, scan_wf npos [] _ rfl]
   simp only [Sig.params, List.isEmpty_nil, Bool.not_true, Bool.or_self]
   rw [indexLoop_append, indexLoop_append, indexLoop_append, indexLoop_append]
-  rw [il_pos_seg npos .posOnly (Or.inl rfl) po 0 (by omega)]
+  rw [il_pos_seg npos [] .posOnly (Or.inl rfl) po 0 (by omega)]
   simp only [Nat.zero_add, List.length_append, List.length_map]
   by_cases hpo : npos < po.length
   · have : npos < po.length + pk.length := by omega
     simp [hpo, this]
   · simp only [hpo, if_false]
-    rw [il_pos_seg npos .posOrKw (Or.inr rfl) pk po.length (by omega)]
+    rw [il_pos_seg npos [] .posOrKw (Or.inr rfl) pk po.length (by omega)]
     by_cases hpk : npos < po.length + pk.length
     · simp [hpk]
     · simp only [hpk, if_false]
